@@ -60,6 +60,16 @@ def known_ids():
     return {(f.get("signature") or f.get("id")) for f in kf if f.get("status") == "known"}
 
 
+def code_cfg(name, known):
+    """cfg of a configuration that models THE CODE: a finding that is not listed as known is taken as repaired in the
+    tree under test, so its repair is switched on in the model too (FixVk = TRUE iff Vk is not a known finding)."""
+    text = open(os.path.join(vlib.SPEC, name + ".cfg")).read()
+    for k in "1234":
+        if "V" + k not in known:
+            text = text.replace("FixV%s = FALSE" % k, "FixV%s = TRUE" % k)
+    return {name + ".cfg": text}
+
+
 def realize(model_sched):
     """model actions -> operations of the real driver (every transaction is followed by a sync = one level-0 file)"""
     out, commit, rows = [["Sync"]], 2, 2 * G
@@ -107,7 +117,7 @@ def run_driver(binary, wd, name, cases, timeout):
     return out
 
 
-def judge(rep, wd, trace_path, label, chunk=400):
+def judge(rep, wd, trace_path, label, known, chunk=400):
     """VfsObs (verdicts) and Trace_Vfs (binding) over the recorded traces, in chunks of `chunk` traces, in parallel."""
     chunks, cur, seen = [], [], set()
     for line in open(trace_path):
@@ -126,7 +136,8 @@ def judge(rep, wd, trace_path, label, chunk=400):
         os.makedirs(d, exist_ok=True)
         with open(os.path.join(d, "vfs_trace.ndjson"), "w") as fh:
             fh.writelines(chunks[k])
-        return k, mod, vlib.run_tlc(mod, mod + ".cfg", d, workers=1, timeout=2400)
+        return k, mod, vlib.run_tlc(mod, mod + ".cfg", d, workers=1, timeout=2400,
+                                    files=code_cfg("Trace_Vfs", known) if mod == "Trace_Vfs" else None)
     bad, div = {}, []
     with ThreadPoolExecutor(max(2, vlib.NCPU // 2)) as ex2:
         for k, mod, r in ex2.map(one, [(k, m) for k in range(len(chunks)) for m in ("VfsObs", "Trace_Vfs")]):
@@ -194,6 +205,7 @@ def main():
     rnd = random.Random(seed)
     known = known_ids()
     rep = vlib.Report(PROP, tier)
+    rep.cov["model_of_the_code"] = {"V%s" % k: ("as-is" if "V%s" % k in known else "repaired (FixV%s=TRUE): not listed as known" % k) for k in "1234"}
     rep.assumptions = [
         "the VFSFile is driven directly (Open, ReadAt of every page through a one-page cache, FileSize, Pos, Lock/Unlock, "
         "SetTargetTime/ResetTime); one poll = one round of its own monitor goroutine, let through by a gating replica client",
@@ -234,7 +246,8 @@ def main():
         def tlc(name):
             d = os.path.join(wd, "mc-" + name)
             os.makedirs(d)
-            return name, vlib.run_tlc("Vfs", name + ".cfg", d, workers=max(2, vlib.NCPU // 4), timeout=2400 if tier != "quick" else 600)
+            return name, vlib.run_tlc("Vfs", name + ".cfg", d, workers=max(2, vlib.NCPU // 4), timeout=2400 if tier != "quick" else 600,
+                                      files=code_cfg(name, known) if name in [g for g, _ in guarded] else None)
 
         ex = ThreadPoolExecutor(6)
         nsim, depth, ngraph = (100, 30, 150) if tier == "quick" else (1000, 40, 2000)
@@ -242,13 +255,14 @@ def main():
         def sim():
             d = os.path.join(wd, "sim")
             os.makedirs(d)
-            return vlib.tlc_simulate("Vfs", "Sim_Vfs.cfg", d, nsim, depth, seed)
+            return vlib.tlc_simulate("Vfs", "Sim_Vfs.cfg", d, nsim, depth, seed, files=code_cfg("Sim_Vfs", known))
 
         def dump():
             d = os.path.join(wd, "dump")
             os.makedirs(d)
             dot = os.path.join(d, "g.dot")
-            rd = vlib.run_tlc("Vfs", "Dump_Vfs.cfg" if tier == "quick" else "Dump_Vfs_t.cfg", d, workers=4,
+            dname = "Dump_Vfs" if tier == "quick" else "Dump_Vfs_t"
+            rd = vlib.run_tlc("Vfs", dname + ".cfg", d, workers=4, files=code_cfg(dname, known),
                               extra=["-dump", "dot,actionlabels", dot], timeout=1500)
             vlib.tlc_expect_ok(rd, "dump")
             sg, ginfo = vlib.dot_schedules(dot, cover="edges", max_schedules=None)
@@ -312,7 +326,7 @@ def main():
         for line in open(out):
             e = json.loads(line)
             per.setdefault(e["t"], []).append(e)
-        bad, div = judge(rep, wd, out, "all", chunk=100 if tier == "quick" else 300)
+        bad, div = judge(rep, wd, out, "all", known, chunk=100 if tier == "quick" else 300)
         rep.cov["divergences"] = len(div)
         for d in div[:5]:
             c = ([x for x in cases if x["id"] == d.get("trace")] or [None])[0]
@@ -381,7 +395,10 @@ def main():
                               {"cfg": c["cfg"], "schedule": c["sched"], "model": c["model"], "violated": unexplained,
                                "trace": short_trace(evs)})
         for fid, hits in sorted(reproduced.items()):
-            if not any(hits):
+            if fid not in known:
+                if any(hits):
+                    rep.notes.append("the shape of %s still violates the property although it is not listed as known (reported as VIOLATION)" % fid)
+            elif not any(hits):
                 rep.notes.append("MODEL-MISMATCH: the counterexample / witness of %s did not reproduce on the real code (%d cases)" % (fid, len(hits)))
         rep.cov["known_shapes_reproduced_on_real_code"] = {k: sum(v) for k, v in reproduced.items()}
         for c in cases[:400]:
